@@ -7,6 +7,7 @@ mod codec;
 mod e2e;
 mod e2epub;
 mod e2erec;
+mod e2esub;
 mod e2ereq;
 mod e2etls;
 mod fanout;
@@ -74,6 +75,7 @@ fn run_suite(suite: &str, cfg: &Cfg) {
         "registry" => registry::run(cfg),
         "e2etls" => e2etls::run(cfg),
         "e2erec" => e2erec::run(cfg),
+        "e2esub" => e2esub::run(cfg),
         other => { eprintln!("unknown suite {other}"); std::process::exit(2); }
     }
 }
@@ -84,6 +86,7 @@ pub fn dispatch_child(op: &str, input: &[u8]) -> String {
         "bdec" => wire::bdec_value(input),
         "rr" => reqrep::child(input),
         "ps" => pubsub::child(input),
+        "dcx" => e2esub::dcx(input),
         other => codec::child(other, input).unwrap_or_else(|| format!("unknown-op {other}")),
     }
 }
